@@ -31,15 +31,22 @@ example : (create Ex.ct ⟨Ex.heap, 3, []⟩ 2 [.atom 5]).map (fun r => (r.1.nex
 
 /-- Two instances never share an instantiated attribute: every attribute named in `dict_inst`
 exists on each instance, is a reference to an object allocated by that very call, and nothing
-reachable from an instantiated attribute of the first instance is reachable from one of the
-second.  Class attributes (`dict_cls`) are the same value for both (shared by construction). -/
+reachable from an attribute of the first instance is reachable from one of the second.  Class
+attributes (`dict_cls`) are the same value for both (shared by construction).
+
+The guard `ci.kind = .cfitness → p.1 ≠ cvName` of the first clause: `init_type` calls
+`base.__init__` after the `dict_inst` attributes are set (creator.py:125-126), and
+`ConstrainedFitness.__init__` sets `constraint_violation = None`; a `dict_inst` attribute of that
+very name on a `ConstrainedFitness` class is therefore `None` on every instance, not a fresh object
+(every other `dict_inst` attribute is). -/
 theorem fresh_attrs (ct : ClassTable) (objs : Oid → Option Obj) (next : Nat) (memo : List (Oid × Oid))
     (hcl : Closed objs next) (c : ClsId) (ci : ClassInfo) (hci : ct[c]? = some ci)
     (items₁ items₂ : List Val) (st1 st2 : State) (x1 x2 : Oid)
     (h1 : create ct ⟨objs, next, memo⟩ c items₁ = some (st1, x1))
     (h2 : create ct st1 c items₂ = some (st2, x2)) :
     ∃ o1 o2, st2.objs x1 = some o1 ∧ st2.objs x2 = some o2 ∧ o1.items = items₁ ∧ o2.items = items₂ ∧
-      (∀ p ∈ ci.dictInst, ∃ y1 y2, lookup p.1 o1.attrs = some (.ref y1) ∧
+      (∀ p ∈ ci.dictInst, (ci.kind = .cfitness → p.1 ≠ cvName) →
+          ∃ y1 y2, lookup p.1 o1.attrs = some (.ref y1) ∧
           lookup p.1 o2.attrs = some (.ref y2) ∧ next ≤ y1 ∧ y1 < st1.next ∧ st1.next ≤ y2) ∧
       (∀ k1 v1 k2 v2, lookup k1 o1.attrs = some v1 → lookup k2 o2.attrs = some v2 →
           ∀ y, Reach st2.objs v1 y → ¬ Reach st2.objs v2 y) ∧
@@ -50,30 +57,32 @@ theorem fresh_attrs (ct : ClassTable) (objs : Oid → Option Obj) (next : Nat) (
   subst x1
   rw [hci] at hci1
   cases hci1
-  have hb1 : ∀ y, sb.next ≤ y →
-      define sb.objs next ⟨c, items₁, attrs1, ci.kind != .node⟩ y = none :=
+  -- the two new objects
+  obtain ⟨o1, ho1⟩ : ∃ o1 : Obj, o1 =
+    ⟨c, items₁, dictUpdate attrs1 (baseInitAttrs ci.kind), ci.kind != .node⟩ := ⟨_, rfl⟩
+  rw [← ho1] at h2
+  have hb1 : ∀ y, sb.next ≤ y → define sb.objs next o1 y = none :=
     Bounded.reserve_define (st := ⟨objs, next, memo⟩) E1
   obtain ⟨ci2, sc, attrs2, hci2, hx2e, rfl, E2, A2⟩ :=
     create_of_eq ct _ sb.next sb.memo c items₂ st2 x2 hb1 h2
   subst x2
   rw [hci] at hci2
   cases hci2
+  obtain ⟨o2, ho2⟩ : ∃ o2 : Obj, o2 =
+    ⟨c, items₂, dictUpdate attrs2 (baseInitAttrs ci.kind), ci.kind != .node⟩ := ⟨_, rfl⟩
+  rw [← ho2]
   have hlt1 : next + 1 ≤ sb.next := E1.le
   have hlt2 : sb.next + 1 ≤ sc.next := E2.le
   -- the final heap on the slots of the first call
-  have F1 : ∀ x, x < sb.next →
-      define sc.objs sb.next ⟨c, items₂, attrs2, ci.kind != .node⟩ x =
-        define sb.objs next ⟨c, items₁, attrs1, ci.kind != .node⟩ x := by
+  have F1 : ∀ x, x < sb.next → define sc.objs sb.next o2 x = define sb.objs next o1 x := by
     intro x hx
     rw [define_ne _ _ _ (Nat.ne_of_lt hx)]
     exact E2.old x (Nat.lt_succ_of_lt hx)
-  have hx1 : define sc.objs sb.next ⟨c, items₂, attrs2, ci.kind != .node⟩ next =
-      some ⟨c, items₁, attrs1, ci.kind != .node⟩ := by
+  have hx1 : define sc.objs sb.next o2 next = some o1 := by
     rw [F1 next (by omega), define_same]
-  have hx2 : define sc.objs sb.next ⟨c, items₂, attrs2, ci.kind != .node⟩ sb.next =
-      some ⟨c, items₂, attrs2, ci.kind != .node⟩ := define_same _ _ _
+  have hx2 : define sc.objs sb.next o2 sb.next = some o2 := define_same _ _ _
   -- reachability stays inside the slots of the call that allocated the attribute
-  have R1 : ∀ (v : Val) (y : Nat), Reach (define sc.objs sb.next ⟨c, items₂, attrs2, ci.kind != .node⟩) v y →
+  have R1 : ∀ (v : Val) (y : Nat), Reach (define sc.objs sb.next o2) v y →
       (∀ x : Nat, v = Val.ref x → next + 1 ≤ x ∧ x < sb.next) → next + 1 ≤ y ∧ y < sb.next := by
     intro v y hr
     refine reach_closed (fun y : Nat => next + 1 ≤ y ∧ y < sb.next) ?_ hr
@@ -81,30 +90,57 @@ theorem fresh_attrs (ct : ClassTable) (objs : Oid → Option Obj) (next : Nat) (
     rw [F1 x hx.2, define_ne _ _ _ (Nat.ne_of_gt hx.1)] at ho
     have := E1.closed x o hx.1 ho _ hy
     exact ⟨this.1, this.2.1⟩
-  have R2 : ∀ (v : Val) (y : Nat), Reach (define sc.objs sb.next ⟨c, items₂, attrs2, ci.kind != .node⟩) v y →
+  have R2 : ∀ (v : Val) (y : Nat), Reach (define sc.objs sb.next o2) v y →
       (∀ x, v = Val.ref x → sb.next + 1 ≤ x) → sb.next + 1 ≤ y := by
     intro v y hr
     refine reach_closed (fun y => sb.next + 1 ≤ y) ?_ hr
     intro x o hx ho y hy
     rw [define_ne _ _ _ (Nat.ne_of_gt hx)] at ho
     exact (E2.closed x o hx ho _ hy).1
-  refine ⟨_, _, hx1, hx2, rfl, rfl, ?_, ?_, ?_⟩
-  · intro p hp
+  -- an attribute of a new object: what `base.__init__` set (an atom) or an instantiated one
+  have L : ∀ (attrs : List (Name × Val)) (k : Name) (v : Val),
+      lookup k (dictUpdate attrs (baseInitAttrs ci.kind)) = some v →
+      (∃ a, v = .atom a) ∨ lookup k attrs = some v := by
+    intro attrs k v h
+    rw [lookup_dictUpdate] at h
+    cases hb : lookup k (baseInitAttrs ci.kind) with
+    | none => rw [hb] at h; exact Or.inr h
+    | some w =>
+      rw [hb] at h
+      cases h
+      exact Or.inl ⟨_, (lookup_baseInitAttrs hb).2.2⟩
+  have ha1 : o1.attrs = dictUpdate attrs1 (baseInitAttrs ci.kind) := by rw [ho1]
+  have ha2 : o2.attrs = dictUpdate attrs2 (baseInitAttrs ci.kind) := by rw [ho2]
+  refine ⟨o1, o2, hx1, hx2, by rw [ho1], by rw [ho2], ?_, ?_, ?_⟩
+  · intro p hp hguard
     obtain ⟨y1, hl1, h11, h12⟩ := A1.lookup_of_mem hp
     obtain ⟨y2, hl2, h21, _⟩ := A2.lookup_of_mem hp
-    exact ⟨y1, y2, hl1, hl2, by omega, h12, Nat.le_of_succ_le h21⟩
+    have hnb : lookup p.1 (baseInitAttrs ci.kind) = none := by
+      cases hb : lookup p.1 (baseInitAttrs ci.kind) with
+      | none => rfl
+      | some w =>
+        obtain ⟨hk, hn, _⟩ := lookup_baseInitAttrs hb
+        exact absurd hn (hguard hk)
+    refine ⟨y1, y2, ?_, ?_, by omega, h12, Nat.le_of_succ_le h21⟩
+    · rw [ha1, lookup_dictUpdate, hnb]; exact hl1
+    · rw [ha2, lookup_dictUpdate, hnb]; exact hl2
   · intro k1 v1 k2 v2 hl1 hl2 y hr1 hr2
+    rw [ha1] at hl1
+    rw [ha2] at hl2
+    rcases L _ _ _ hl1 with ⟨a, rfl⟩ | hl1
+    · cases hr1
+    rcases L _ _ _ hl2 with ⟨a, rfl⟩ | hl2
+    · cases hr2
     obtain ⟨y1, rfl, h11, h12⟩ := A1.lookup_ref hl1
     obtain ⟨y2, rfl, h21, _⟩ := A2.lookup_ref hl2
     have a1 := R1 _ _ hr1 (fun x hx => by cases hx; exact ⟨h11, h12⟩)
     have a2 := R2 _ _ hr2 (fun x hx => by cases hx; exact h21)
     omega
   · intro k hk1 hk2
-    have hk1' : lookup k attrs1 = none := hk1
-    have hk2' : lookup k attrs2 = none := hk2
-    show getattr ct (define sc.objs sb.next ⟨c, items₂, attrs2, ci.kind != .node⟩) next k =
-      getattr ct (define sc.objs sb.next ⟨c, items₂, attrs2, ci.kind != .node⟩) sb.next k
-    simp only [getattr, hx1, hx2, hk1', hk2']
+    show getattr ct (define sc.objs sb.next o2) next k = getattr ct (define sc.objs sb.next o2) sb.next k
+    have hc1 : o1.cls = c := by rw [ho1]
+    have hc2 : o2.cls = c := by rw [ho2]
+    simp only [getattr, hx1, hx2, hk1, hk2, hc1, hc2]
 
 /-- Instance of the hypotheses of `fresh_attrs`: a closed heap, a class of the table, and two
 consecutive successful instantiations. -/
@@ -141,6 +177,59 @@ theorem clone_equal (ct : ClassTable) (hct : CTOk ct) (hnd : DictNodup ct)
       Within ct CopyOK objs' n v' := by
   obtain ⟨objs', next', v', h, h1, h2, h3, h4, h5, h6, _⟩ := Heap.Copy.clone_facts hct hcl n v hv
   exact ⟨objs', next', v', h, h1, h2, h3, h4, h5, h6 hnd⟩
+
+/-- `create` composes with `clone`: a freshly created instance (atom items) of a class whose
+instantiated fitness classes have no `dict_inst` attributes (`CreateOK`) satisfies the side
+conditions of the copy hooks — in particular a new `ConstrainedFitness` has its
+`constraint_violation`, set to `None` by `base.__init__` — so its clone exists, denotes the same
+pure value, leaves the original as it is, and can be cloned again. -/
+theorem create_then_clone (ct : ClassTable) (hct : CTOk ct) (hnd : DictNodup ct)
+    (objs : Oid → Option Obj) (next : Nat) (memo : List (Oid × Oid)) (hcl : Closed objs next)
+    (c : ClsId) (hc : c < ct.length) (hok : CreateOK ct c)
+    (items : List Val) (hitems : ∀ v ∈ items, v.isAtom = true) :
+    ∃ st x, create ct ⟨objs, next, memo⟩ c items = some (st, x) ∧ Closed st.objs st.next ∧
+      Within ct CopyOK st.objs (ct.length + 1) (.ref x) ∧
+      ∃ objs' next' v', clone ct (ct.length + 1) st.objs st.next (.ref x) = some (objs', next', v') ∧
+        (∀ m, abs objs' m v' = abs st.objs m (.ref x)) ∧
+        (∀ m, abs objs' m (.ref x) = abs st.objs m (.ref x)) ∧
+        Closed objs' next' ∧ Within ct CopyOK objs' (ct.length + 1) v' := by
+  obtain ⟨st, x, h⟩ := create_succeeds ct hct ⟨objs, next, memo⟩ c items hc
+  have hb : Bounded ⟨objs, next, memo⟩ := hcl.bound
+  obtain ⟨_, hE⟩ := newInst_ext_of_eq ct hb hitems h
+  have hcl' : Closed st.objs st.next := hE.closed_heap hcl
+  have hw : Within ct CopyOK st.objs (ct.length + 1) (.ref x) :=
+    Heap.Copy.newInst_within (ct.length + 1) _ _ c items x hb hok hitems h
+  obtain ⟨objs', next', v', hcl1, h1, h2, h3, _, _, h6⟩ :=
+    clone_equal ct hct hnd st.objs st.next hcl' (ct.length + 1) (.ref x) hw
+  exact ⟨st, x, h, hcl', hw, objs', next', v', hcl1, h1, h2, h3, h6⟩
+
+/-- Instance of the hypotheses of `create_then_clone`: an individual whose `dict_inst` names a
+`ConstrainedFitness` class, created in the heap of a fresh interpreter … -/
+example : ∃ st x, create Ex2.ct ⟨fun _ => none, 0, []⟩ 1 [.atom 1, .atom 2] = some (st, x) ∧
+    ∃ objs' next' v', clone Ex2.ct 3 st.objs st.next (.ref x) = some (objs', next', v') ∧
+      ∀ m, abs objs' m v' = abs st.objs m (.ref x) := by
+  obtain ⟨st, x, h, _, _, objs', next', v', h1, h2, _⟩ :=
+    create_then_clone Ex2.ct Ex2.ct_ok Ex2.ct_nodup (fun _ => none) 0 [] Ex.empty_closed 1
+      (by decide) (Ex2.ct_createOK 1) [.atom 1, .atom 2]
+      (by intro v hv; simp at hv; rcases hv with rfl | rfl <;> rfl)
+  exact ⟨st, x, h, objs', next', v', h1, h2⟩
+
+/-- … and the evaluation: the individual at oid 0, its fitness at 1; the clone at 2, the clone of
+the fitness at 3 … -/
+example : ((create Ex2.ct ⟨fun _ => none, 0, []⟩ 1 [.atom 1, .atom 2]).bind (fun r =>
+    (clone Ex2.ct 3 r.1.objs r.1.next (.ref r.2)).map (fun r' =>
+      (r.2, r.1.next, r'.2.1, r'.2.2)))) = some (0, 2, 4, .ref 2) := by
+  decide
+
+/-- … the new fitness carries `constraint_violation = None` from `base.__init__`, and so does its
+clone (the clone of the individual refers to it). -/
+example : ((create Ex2.ct ⟨fun _ => none, 0, []⟩ 1 [.atom 1, .atom 2]).bind (fun r =>
+    (clone Ex2.ct 3 r.1.objs r.1.next (.ref r.2)).map (fun r' =>
+      (r.1.objs 1, r'.1 2, r'.1 3))))
+    = some (some ⟨0, [], [(cvName, .atom noneAtom)], true⟩,
+        some ⟨1, [.atom 1, .atom 2], [(1, .ref 3)], true⟩,
+        some ⟨0, [], [(cvName, .atom noneAtom)], true⟩) := by
+  decide
 
 /-- Clone disjoint: every object reachable from the clone is fresh, except immutable objects of
 the old heap (GP node objects shared by `PrimitiveTree.__deepcopy__`). -/
@@ -248,6 +337,71 @@ example : ∃ objs' next' v',
     pickle_equal Ex.ct Ex.ct_ok Ex.heap 3 (.ref 0) Ex.heap_pickleOK Ex.heap 3 Ex.heap_closed
   exact ⟨objs', next', v', h,
     pickle_disjoint Ex.ct Ex.ct_ok Ex.heap 3 (.ref 0) Ex.heap 3 Ex.heap_closed objs' next' v' h⟩
+
+/-! ### Pickling of the created classes (`MetaCreator.__reduce__` / `meta_create`) -/
+
+/-- The unpickled class is equivalent to the pickled description — whatever the loading module has
+bound to `name`, in particular a *different* class of the same name. -/
+theorem meta_create_equivalent (m : Module) (name : Name) (ci : ClassInfo) :
+    (metaCreate m name ci).1.classes[(metaCreate m name ci).2]? = some ci := by
+  simp [metaCreate]
+
+/-- `meta_create` makes a *new* class object and leaves the existing ones (hence their instances)
+untouched. -/
+theorem meta_create_keeps_old (m : Module) (name : Name) (ci : ClassInfo) :
+    (metaCreate m name ci).2 = m.classes.length ∧
+    ∀ c, c < m.classes.length → (metaCreate m name ci).1.classes[c]? = m.classes[c]? := by
+  refine ⟨rfl, fun c hc => ?_⟩
+  show (m.classes ++ [ci])[c]? = m.classes[c]?
+  exact List.getElem?_append_left hc
+
+/-- … so an instance of an existing class sees the same class attributes as before. -/
+theorem meta_create_old_instances (m : Module) (name : Name) (ci : ClassInfo)
+    (objs : Oid → Option Obj) (x : Oid) (o : Obj) (ho : objs x = some o)
+    (hc : o.cls < m.classes.length) (k : Name) :
+    getattr (metaCreate m name ci).1.classes objs x k = getattr m.classes objs x k := by
+  simp only [getattr, ho, (meta_create_keeps_old m name ci).2 o.cls hc]
+
+/-- `globals()[name] = class_`: the name is bound to the new class, every other name keeps its
+binding. -/
+theorem meta_create_rebinds (m : Module) (name : Name) (ci : ClassInfo) :
+    lookup name (metaCreate m name ci).1.bound = some (metaCreate m name ci).2 ∧
+    ∀ k, k ≠ name → lookup k (metaCreate m name ci).1.bound = lookup k m.bound := by
+  refine ⟨by simp [metaCreate, lookup], fun k hk => ?_⟩
+  show lookup k ((name, m.classes.length) :: m.bound.filter (fun p => p.1 != name)) = lookup k m.bound
+  rw [lookup_cons, if_neg (fun e => hk e.symm), lookup_filter_ne k name hk]
+
+/-- Class round trip: a class of the module `m`, pickled (`MetaCreator.__reduce__`) and unpickled
+(`meta_create`) in ANY module `m'`, is a new class with the same description as the original; the
+classes of `m'` are untouched and the name is bound to the new class. -/
+theorem class_roundtrip (m m' : Module) (c : ClsId) (name : Name) (ci : ClassInfo)
+    (hci : m.classes[c]? = some ci) :
+    ∃ nm d, classReduce m c name = some (nm, d) ∧ nm = name ∧
+      (metaCreate m' nm d).1.classes[(metaCreate m' nm d).2]? = some ci ∧
+      (metaCreate m' nm d).2 = m'.classes.length ∧
+      (∀ c', c' < m'.classes.length → (metaCreate m' nm d).1.classes[c']? = m'.classes[c']?) ∧
+      lookup name (metaCreate m' nm d).1.bound = some (metaCreate m' nm d).2 ∧
+      (∀ k, k ≠ name → lookup k (metaCreate m' nm d).1.bound = lookup k m'.bound) := by
+  refine ⟨name, ci, by simp [classReduce, hci], rfl, meta_create_equivalent m' name ci,
+    (meta_create_keeps_old m' name ci).1, (meta_create_keeps_old m' name ci).2,
+    (meta_create_rebinds m' name ci).1, (meta_create_rebinds m' name ci).2⟩
+
+/-- Instance of the hypothesis of `class_roundtrip`, with a target module that already binds the
+name to a class with another `dict_cls` … -/
+example : ∃ nm d, classReduce Ex.modSrc 1 5 = some (nm, d) ∧
+    (metaCreate Ex.modDst nm d).1.classes[(metaCreate Ex.modDst nm d).2]?
+      = some ⟨.plain, [(1, 0)], [(9, .atom 3)]⟩ := by
+  obtain ⟨nm, d, h, _, h1, _⟩ := class_roundtrip Ex.modSrc Ex.modDst 1 5 _ rfl
+  exact ⟨nm, d, h, h1⟩
+
+/-- … and the evaluation: the unpickled class is class 1 of the target module and carries the
+pickled `dict_cls` (`9 ↦ 3`); class 0, to which the name 5 was bound, still has its own
+(`9 ↦ 4`); the name 5 is now bound to class 1. -/
+example : (classReduce Ex.modSrc 1 5).map (fun r =>
+      let m := metaCreate Ex.modDst r.1 r.2
+      (m.2, m.1.classes[m.2]?, m.1.classes[0]?, lookup 5 m.1.bound))
+    = some (1, some ⟨.plain, [(1, 0)], [(9, .atom 3)]⟩, some ⟨.plain, [], [(9, .atom 4)]⟩, some 1) := by
+  decide
 
 /-- An alias calls the registered function with the frozen positional arguments followed by the
 call's own, and the frozen keyword arguments overridden/extended by the call's. -/
